@@ -14,7 +14,7 @@ PINS = "pins/C10.v"
 K_TARGETS = ["model/Names.vo"]
 HEADER = "From QV Require Import model.Base model.Names."
 TRUSTED = ["harness uigen + xml.etree; data/verif_names_metatypes.json (synthetic classes whose names end in digits or start with K/Q)",
-           "references in the support header (ui_->name) are checked by C16's check, not here"]
+           "references in the support header (ui_->name) are checked against the names the .ui declares (and compiled under C16)"]
 CONTAINERS = ["QWidget", "Widget2", "KWidget", "Page", "Page1", "Page12", "Q3DView", "QGroupBox", "QMenu"]
 LEAVES = ["QLabel", "Label", "Label1", "QPushButton", "PushButton1", "QAction", "Action1", "QLabel", "QLabel"]
 ID_POOL = ["label", "label1", "label2", "label11", "widget", "widget2", "widget21", "page", "page1", "page12", "page121", "action", "action1",
@@ -136,10 +136,50 @@ def reference_matrix(ctx, vh):
     ctx.coverage["reference_matrix"] = len(meta) + len(meta2)
 
 
+def header_references(ctx, vh, rng):
+    """across both outputs: every object the support header reaches through ui_-><name> is declared under that name in the .ui (uic makes a member only for a declared
+    widget, layout, spacer or action); documents with dynamic bindings and handlers on every kind of object, separators with run-time properties among them"""
+    from . import uigenk as U
+    import os
+    os.environ["VERIF_EXTRA_METATYPES"] = ""
+    docs = []
+    for i in range(400 if ctx.tier == "thorough" else 60):
+        g = U.Gen(rng, clean=True, p_dyn=rng.choice([0.2, 0.4]), p_handler=0.3)
+        docs.append(U.render(g.document()))
+        ctx.dist("header-references-generated")
+    acts = ["separator: true; visible: srcB.checked", "separator: true; text: srcS.text", "separator: true; enabled: srcB.checked; toolTip: srcS.text", "separator: srcB.checked",
+            "separator: true; visible: false", "separator: true", "separator: true; onTriggered: srcS.clear()", "separator: false; text: srcS.text", "text: srcS.text; checkable: true",
+            "separator: true; checkable: true; visible: srcB.checked"]
+    for a in acts:
+        for lst in (False, True):
+            docs.append("import qmluic.QtWidgets\nQMainWindow {\n  QLineEdit { id: srcS }\n  QCheckBox { id: srcB }\n  QAction { id: other; text: \"o\" }\n  QAction {\n    id: sep\n    %s\n  }\n"
+                        "  QToolBar {\n    id: bar\n%s  }\n}\n" % (a.replace("; ", "\n    "), "    actions: [other, sep, other]\n" if lst else "    QAction { %s }\n" % a))
+            ctx.dist("header-references-actions")
+    res = qml.run_docs(vh, docs, mode="generate")
+    n = 0
+    for d, r in zip(docs, res):
+        ctx.count(("header-references", d), True)
+        if not isinstance(r, dict) or r.get("ui") is None or not r.get("header") or any(x["kind"] == "error" for x in r["diags"]):
+            continue
+        declared = set()
+        for el in qml.parse_ui(r["ui"]).iter():
+            if el.tag in ("widget", "layout", "spacer", "action") and el.get("name"):
+                declared.add(el.get("name"))
+        used = set(re.findall(r"\bui_->(\w+)", r["header"]))
+        n += len(used)
+        missing = sorted(used - declared)
+        if missing:
+            ctx.violation("the support header reaches %s through ui_->, which the .ui does not declare (objects declared: %d)" % (", ".join(missing), len(declared)),
+                          {"qml": d, "impl_output": {"ui": r["ui"], "header": r["header"]}, "theorem_or_correspondence": "S: every reference resolves, across both outputs"})
+    ctx.coverage["header_references_resolved"] = n
+
+
 def run(ctx):
     ctx.proof_leg(TARGETS, PINS, k_targets=K_TARGETS)
     vh = ctx.need_harness()
     rng = ctx.rng
+    if not ctx.replay:
+        header_references(ctx, vh, rng)
     import os
     os.environ["VERIF_EXTRA_METATYPES"] = EXTRA
     corpus_src = [
